@@ -181,6 +181,8 @@ def c02(ctx):
     ctx.model("mc/MC_Wire.tla", "MC_Wire.cfg" if q else "MC_Wire_all.cfg", workers=12, timeout=3000)
     ctx.sim("codec", 560 if q else 14000, LOOP, "MonLoop_C02.cfg", nontrivial=has_noise, conf=CONF)
     ctx.sim("noise", 100 if q else 2000, LOOP, "MonLoop_C02.cfg", seed_off=1, nontrivial=has_noise, extra_args=[])
+    # many rounds: the sequence offset of every regime crosses the buffer size and the wrap-around point
+    ctx.sim("long", 8 if q else 120, LOOP, "MonLoop_C02.cfg", seed_off=2, nontrivial=has_genuine, conf=CONF, batch=4 if q else 20)
     ctx.write_evidence("model_checking", "model: MC_Wire - Decode(Quote(Encode(p), v)) = p.seq, acceptance, rejection of every foreign variation and injectivity for every supported cell x sequence in the named set x quotation variation; "
                        "implementation: distinct (cell, quotation form/topology shape) scenarios of the systematic sweep in which genuine and foreign responses were delivered: every genuine response must complete exactly its probe, every foreign one must be a no-op, and the bytes on the wire must equal Wire!Encode",
                        assumptions=LOOP_ASSUME + ["the byte -> field abstraction is the independent decoder in harness/vh/src/wire.rs (trusted)"])
@@ -366,7 +368,7 @@ def c16(ctx):
     ctx.cov["cli_configurations_accepted_and_run"] = acc
     log("gen   %d random CLI+file configurations, %d accepted by the command-line layer -> run over the simulated network" % (n, acc))
     ctx.sim("clirun", acc, CFGM, "MonCfg_C16.cfg", seed_off=2, scenarios_file=scen, extra_args=["--snap", "none"], conf=(CFGM, "MonCfg_conf.cfg"))
-    ctx.write_evidence("model_checking", "model: Config.tla - over the boundary values of every builder parameter (1.1 million configurations) whatever passes Builder::build and the start-up checks lies in the domain of the core, and the layering operator is a function of the option's own three inputs; "
+    ctx.write_evidence("model_checking", "model: Config.tla - over the boundary values of every builder parameter (226 800 configurations) whatever passes Builder::build and the start-up checks lies in the domain of the core, and the layering operator is a function of the option's own three inputs; "
                        "implementation: distinct (option, layer state, values, background) cases through the real Args / ConfigFile / build_config whose effective value TLC compares with Layer(cli, file, documented default); distinct builder-parameter combinations and distinct accepted command-line configurations executed for 2-3 rounds over the simulated network",
                        assumptions=["the documented default of an option is the [default: X] of the --help text generated from the real Args (what `trip --help` prints; pinned by the repository's snapshot tests), falling back to trippy-config-sample.toml where the help states none; geoip-mmdb-file has no documented default",
                                     "the configuration file layer is the real ConfigFile deserialised from TOML text; locating and reading the file on disk is not exercised",
